@@ -200,7 +200,7 @@ func AcceptValue(kind AcceptKind, key, literal string) string {
 // AcceptLiteral, the accept value of that kind for the key.
 type Line struct {
 	Name   string     `json:"name,omitempty"`
-	Pre    string     `json:"pre,omitempty"`  // blanks between the colon and the value (canonically one SP)
+	Pre    string     `json:"pre,omitempty"` // blanks between the colon and the value (canonically one SP)
 	Value  string     `json:"value,omitempty"`
 	Post   string     `json:"post,omitempty"` // blanks after the value
 	Accept AcceptKind `json:"accept,omitempty"`
@@ -210,11 +210,11 @@ type Line struct {
 
 // Response is a structured upgrade response.
 type Response struct {
-	Version    string `json:"version"`               // token before the first SP, e.g. "HTTP/1.1"
-	Status     string `json:"status"`                // token between the first and the second SP
+	Version    string `json:"version"`                // token before the first SP, e.g. "HTTP/1.1"
+	Status     string `json:"status"`                 // token between the first and the second SP
 	NoReasonSP bool   `json:"no_reason_sp,omitempty"` // status line ends right after the status token (no second SP, no reason)
-	Reason     string `json:"reason"`                // everything after the second SP
-	StatusLF   bool   `json:"status_lf,omitempty"`   // status line ends in bare LF
+	Reason     string `json:"reason"`                 // everything after the second SP
+	StatusLF   bool   `json:"status_lf,omitempty"`    // status line ends in bare LF
 	Lines      []Line `json:"lines"`
 	EndLF      bool   `json:"end_lf,omitempty"` // the empty line ending the head is a bare LF
 	// Trailing is what the server sends right after the head (WebSocket frames, usually).
